@@ -1503,6 +1503,16 @@ def scen_C11(ctx):
             handles[m] = ['h%d' % hid[0]]
             hid[0] += 1
         dbs = ['d0']
+
+        def again():
+            # a repeated lookup of an open map: the plain call, or the one with parameters (an explicit bucket count or
+            # capacity, buffer kinds) - the parameters of a map that is already open must not matter
+            c2 = r.random()
+            if c2 < 0.4:
+                return 'default'
+            if c2 < 0.7:
+                return g.params(n=r.choice([1, 8, 32, 256]), bufs=(c2 < 0.55))
+            return 'C%d' % r.choice([1, 5, 100, 1000])
         if late:
             lines.append('dbclone d1 d0'); dbs.append('d1'); dbn[0] = 1
         for _ in range(ctx.scale(120, 500)):
@@ -1516,7 +1526,7 @@ def scen_C11(ctx):
                 handles[m].append('h%d' % hid[0])
                 other = r.choice([d for d in dbs if d != first] or dbs)
                 hid[0] += 1
-                lines.append('map h%d %s %s %s default' % (hid[0], other, kts[m], names[m]))
+                lines.append('map h%d %s %s %s %s' % (hid[0], other, kts[m], names[m], again()))
                 handles[m].append('h%d' % hid[0])
                 continue
             if c < 0.05:
@@ -1525,7 +1535,7 @@ def scen_C11(ctx):
                 handles[m].append('h%d' % hid[0])
             elif c < 0.10:
                 hid[0] += 1
-                lines.append('map h%d %s %s %s default' % (hid[0], r.choice(dbs), kts[m], names[m]))
+                lines.append('map h%d %s %s %s %s' % (hid[0], r.choice(dbs), kts[m], names[m], again()))
                 handles[m].append('h%d' % hid[0])
             elif c < 0.13:
                 dbn[0] += 1
@@ -1704,6 +1714,20 @@ def scen_C12(ctx):
     # the 4-byte forms of the variable-length fields (a value of 2 MiB or more: its length; the offsets behind it) are part of
     # the format: written, closed, and read back in a new process
     parallel(lambda i: huge_case(ctx, 'C12', i, reopen=True), range(ctx.scale(1, 3)), workers=3)
+    # every width boundary of the variable-length fields as a LENGTH: values and keys of 127/128/129 and 16383/16384/16385 bytes
+    # (1 -> 2 -> 3 byte forms), written, read back, closed, re-opened and read again; the files against the model image
+    def widths(i):
+        kt = ['bytes', 'string'][i % 2]
+        lens = [127, 128, 129, 16383, 16384, 16385]
+        lines = ['db d0 db', 'map m0 d0 %s m B4' % kt]
+        for L in lens:
+            lines += ['put m0 %s z%dx%d' % (('v%05d' % L).encode().hex(), L, L % 200), 'get m0 %s' % ('v%05d' % L).encode().hex()]
+        for L in lens[:5]:
+            lines += ['put m0 z%dx%d 0%d' % (L, (L + i) % 200, i % 10), 'get m0 z%dx%d' % (L, (L + i) % 200)]
+        lines += ['len m0', 'closeall', 'snap db', 'db d0 db', 'map m0 d0 %s m default' % kt]
+        lines += ['get m0 %s' % ('v%05d' % L).encode().hex() for L in lens] + ['get m0 z%dx%d' % (L, (L + i) % 200) for L in lens[:5]] + ['len m0', 'iter m0 keys', 'closeall']
+        pair(ctx, 'width_boundaries', i, lines, files_oracle=True, op_timeout=120)
+    parallel(widths, range(ctx.scale(2, 6)))
     dn = ['v1.0', 'img.2024', 'a.b.c', 'x.htx', 'users.v1']
     parallel(dotted, list(enumerate([(n, dn[j % len(dn)]) for j, n in enumerate(names[::3] if ctx.quick else names)])))
     # frozen hash vectors
